@@ -2,7 +2,7 @@
 # process_u.sh <Uxx> <checks...>: verify the three area-based seeds of a round-7 agent, store them as seeded/<Uxx>_<k>,
 # run the given quick checks against each (scratch copy of /repo, never /repo itself)
 ID=$1; shift; WT=/tmp/wt/$ID; OUT=/tmp/wtout/$ID
-for K in 1 2 3; do
+for K in 1 2 3; do  # (rounds with two changes per agent simply have no patch3)
   [ -f $OUT/patch$K.diff ] || { echo "$ID/$K: no patch"; continue; }
   cd $WT && git checkout -q -- .
   if ! git apply --check $OUT/patch$K.diff 2>/dev/null; then echo "$ID/$K: patch does not apply"; continue; fi
